@@ -9,6 +9,7 @@ pub mod c04;
 pub mod c05;
 pub mod c06;
 pub mod c07;
+pub mod c08;
 pub mod c16;
 
 macro_rules! dispatch {
@@ -20,6 +21,7 @@ macro_rules! dispatch {
             "C05" => c05::$f($ctx $(, $arg)*),
             "C06" => c06::$f($ctx $(, $arg)*),
             "C07" => c07::$f($ctx $(, $arg)*),
+            "C08" => c08::$f($ctx $(, $arg)*),
             "C16" => c16::$f($ctx $(, $arg)*),
             other => {
                 let msg = format!("no monitor for property {}", other);
